@@ -221,7 +221,10 @@ Definition plot_rel_core (d : descriptor) : outcome :=
              | f => isofit_core (d_n_pred d) (d_n_obs d) f (d_level d) (d_n_w d) (d_w_rank d) (d_w_sign d)   (* 214-216 *)
              end ].
 
-(* _utils/partial_dependence.py 93-97: numpy.average(..., axis=1, weights=weights) *)
+(* _utils/partial_dependence.py 93-97: numpy.average(..., axis=1, weights=weights).  numpy accepts 2-d weights of
+   exactly the shape (n_grid, n) of the reshaped predictions; the descriptor carries neither n_grid nor the number of
+   weight columns, so this clause describes 2-d weights of any OTHER shape and harness/run_validate.py never generates
+   the coincidence (the weights of this helper are not among the clauses of C20). *)
 Definition pd_core (d : descriptor) : outcome :=
   match d_n_w d with None => Ok | Some m => guard (len_ne m (d_n_obs d) || is_r2 (d_w_rank d)) ValueError end.
 
